@@ -248,6 +248,14 @@ def run_variant(work, idx, case, v, in_file, result):
             "cpus": pick_cpus(v["cpus"], o["seed"] + idx) if v["cpus"] else None, "oneworker": v.get("oneworker")}
     env["PHYCLONE_VERIF_C18"] = json.dumps(spec)
     cmd = [sys.executable, "-c", "import sys; from phyclone.cli import main; sys.exit(main())"] + cli_args(o, in_file, out_file, v["max_time"], cluster_file(in_file))
+    if case.get("api"):
+        # library entry point phyclone.run.run(...) with the option values as they are (the command line clamps some of them,
+        # e.g. burnin >= 1; a library caller can pass burnin = 0)
+        kw = {k: o[k] for k in DEFAULTS}
+        kw.update(in_file=in_file, out_file=out_file, cluster_file=cluster_file(in_file))
+        if v["max_time"] is not None:
+            kw["max_time"] = v["max_time"]
+        cmd = [sys.executable, "-c", "import json, sys; from phyclone.run import run; run(**json.loads(sys.argv[1]))", json.dumps(kw)]
     t0 = time.time()
     try:
         p = subprocess.run(cmd, cwd=vdir, env=env, stdout=subprocess.PIPE, stderr=subprocess.PIPE, text=True, timeout=RUN_TIMEOUT)
